@@ -375,12 +375,14 @@ def fsolveFD (ops : Ops α) (absLt : α → α → Bool) (c : Case α) : Except 
     colFD env lay (fun r => c.F.get r j) (ops.twoPi * c.freq[j]!)
   return (solOfCols n nf cols, lay)
 
+/-- `x *= u` on one row of `d, v, a` -/
+def scaleDva (u : α) (x : Dva α) : Dva α := ⟨x.d * u, x.v * u, x.a * u⟩
+
 /-- `sol.a[fs.rb] *= rbduf` … `sol.d[fs.el] *= elduf` (each only `if … != 1.0`) -/
 def applyUf (isOne : α → Bool) (rbduf elduf : α) (rb el : List Nat) (col : List (Dva α)) :
     List (Dva α) :=
-  let scale (u : α) (x : Dva α) : Dva α := ⟨x.d * u, x.v * u, x.a * u⟩
-  let c1 := if isOne rbduf then col else modifyRows (scale rbduf) col rb
-  if isOne elduf then c1 else modifyRows (scale elduf) c1 el
+  let c1 := if isOne rbduf then col else modifyRows (scaleDva rbduf) col rb
+  if isOne elduf then c1 else modifyRows (scaleDva elduf) c1 el
 
 /-- `solvepsd(fs, forcepsd, t_frc, freq, [[drma, drmv, drmd, drmf]], rbduf, elduf, incrb=,
 rf_disp_only=)`: returns the response PSD (rows × freq) and the RMS per row. -/
